@@ -664,8 +664,12 @@ def r06_6(cx):
         okr = False
         if len(nx) == 1 and arr:
             recv = peel_all(nx[0][2][0])
-            if recv[0] == 'v':
-                src = canon(arr[0].env.get(recv[2], ('s', '?')))
+            src = None
+            if recv[0] in ('v', 't'):
+                src = canon(arr[0].env.get(recv[2] if recv[0] == 'v' else recv[1], ('s', '?')))
+            elif recv[0] == 'agg':
+                src = canon(expand_vars(b, recv))
+            if src is not None:
                 okr = is_agg(src, r'core::ops::Range$') and src[3]['start'] == ('c', 1) and cstr(src[3]['end']) in (ML, ML2)
         if not okr:
             why = why or 'the doubling loop does not run over 1..hash_len'
@@ -691,7 +695,8 @@ def r06_6(cx):
         h = list(hl)[0]
         sym = Sym(cx.facts, hh)
         mods, _ = sym.loop_mods(h)
-        accs = [l for l in mods if hh.locals[l]['ty'] == 'usize' and hh.locals[l]['names']]
+        from acverif.sym import live_in
+        accs = [l for l in live_in(cx.facts, hh, h) if hh.locals[l]['ty'] == 'usize']
         for r in loop_rows(cx.facts, hh, h):
             if r.end != ('stop', h):
                 continue
